@@ -16,7 +16,8 @@ RULE = ('cases = small deterministic chart (may reach a final state), runner opt
         'list. The harness owns the schedule: threading and time inside sismic.runner.runner are '
         'replaced by shims over a baton scheduler (one thread at a time, switches only at yield '
         'points, virtual time, deadlock detection); coarse schedules yield at every shim call, '
-        'runner hook and at entry/exit of queue/execute_once, line schedules additionally at every '
+        'runner hook, at entry/exit of queue/execute_once and (half of the cases) inside the '
+        'statechart\'s entry code and actions, line schedules additionally at every '
         'line of runner.py, line+queue schedules also at every line of _queue_event/_select_event. Oracle: steps handed to '
         'after_execute == steps executed (each once, in order, <=1 per cycle unless '
         'execute_all); before_run/after_run exactly once; every queued uid consumed at most once '
@@ -80,6 +81,7 @@ def strategy(tier):
         return {'spec': spec, 'scripts': scripts, 'prequeue': prequeue,
                 'interval': draw(st.sampled_from([0.1, 0.1, 0, 0.5])),
                 'work': draw(st.sampled_from([0, 0, 0, 0.05, 0.1, 0.25, 0.5])),
+                'code_yields': draw(st.booleans()),
                 'execute_all': draw(st.booleans()), 'line': line, 'choices': choices,
                 'seed': draw(st.integers(0, 2 ** 20))}
     return cases()
@@ -90,14 +92,24 @@ def run_schedule(case):
     import sismic.runner.runner as rmod
     from sismic.interpreter import Interpreter
     from sismic.runner import AsyncRunner
-    spec = probes.instrument(case['spec'], guards=None)
+    raw = case['spec']
+    if case.get('code_yields'):
+        # the statechart's own entry code and actions are places where the schedule may switch
+        import copy as _copy
+        raw = _copy.deepcopy(raw)
+        for x in raw['states']:
+            x['extra_entry'] = list(x.get('extra_entry') or []) + ['yp()']
+        for t in raw['transitions']:
+            t['extra'] = list(t.get('extra') or []) + ['yp()']
+    spec = probes.instrument(raw, guards=None)
     sc = to_statechart(spec)
     sched = Sched(case['choices'], budget=20000 if case['line'] else 5000,
                   line_level=case['line'],
                   trace_files=(('sismic/runner/runner.py', 'sismic/interpreter/default.py')
                                if case['line'] == 'queue' else ('sismic/runner/runner.py',)),
                   trace_funcs=('_queue_event', '_select_event'), seed=case.get('seed', 0))
-    interp = Interpreter(sc, initial_context=probes.new_context())
+    interp = Interpreter(sc, initial_context=probes.new_context(
+        {'yp': lambda: sched.yp('statechart code')}))
     log = []          # global linearised observation log
     executed = []     # every value returned by execute_once, in order
     step_index = {}
